@@ -35,6 +35,56 @@ RULE_TEXT = ("sites: the isdisjoint calls and the extension of combinations in s
              "the result selection; the raise; the cut-off; isdisjoint; deduplicate_disjunctions")
 
 
+def roles(f):
+    """locals of compute_path_dsjctn by what they are, not by how they are called"""
+    from ..pattern import find, mstmt, mexpr
+    R = {'groups': f.params[3], 'requests': f.params[2], 'network': f.params[0]}
+    # candidate table: X[<group>.disjunction_id] = ...
+    for n in walk_no_nested(f.node):
+        if isinstance(n, ast.Assign) and isinstance(n.targets[0], ast.Subscript) and isinstance(n.targets[0].value, ast.Name) and \
+                isinstance(n.targets[0].slice, ast.Attribute) and n.targets[0].slice.attr == 'disjunction_id':
+            R.setdefault('candidates', n.targets[0].value.id)
+    # path record table: X[id(s)] = Pth(req, full, short)
+    for n, b in find('V_all[id(V_s)] = V_cls(V_req, V_full, V_s)', f.node):
+        R['allpaths'], R['grouped_req'] = b['V_all'], b['V_req']
+    # enumerated paths per request and their reversed twins
+    for n, b in find('V_rev.append(find_reversed_path(V_p))', f.node):
+        lp = enclosing(n, ast.For)
+        if lp is not None and isinstance(lp.iter, ast.Name) and isinstance(lp.target, ast.Name) and lp.target.id == b['V_p']:
+            R['all_rev'], R['all_fwd'] = b['V_rev'], lp.iter.id
+    # the grouped requests: [e for e in requests if e.request_id in <ids of the groups>]
+    for n in walk_no_nested(f.node):
+        if isinstance(n, ast.Assign) and isinstance(n.targets[0], ast.Name):
+            b = mexpr(f"[V_e for V_e in {R['requests']} if V_e.request_id in V_ids]", n.value)
+            if b is not None:
+                R['grouped'] = n.targets[0].id
+            b = mexpr(f"[V_e for V_e in {R['requests']} if V_e.request_id not in V_ids]", n.value)
+            if b is not None:
+                R['simple'] = n.targets[0].id
+    # result table: X[all[id(p)].req] = all[id(p)].pth
+    if 'allpaths' in R:
+        for n, b in find(f"V_res[{R['allpaths']}[id(V_p)].req] = {R['allpaths']}[id(V_p)].pth", f.node):
+            R['result'] = b['V_res']
+    return R
+
+
+def short_table_of(f, R, src):
+    """name of the dict D with  D[req.request_id] = T  where T collects one short list per path of `src`, in order"""
+    out = []
+    for n in walk_no_nested(f.node):
+        if isinstance(n, ast.Assign) and isinstance(n.targets[0], ast.Subscript) and isinstance(n.targets[0].value, ast.Name) and \
+                isinstance(n.value, ast.Name) and ast.unparse(n.targets[0].slice).endswith('.request_id'):
+            t = n.value.id
+            # the closest preceding loop over src that appends to t
+            lps = [x for x in getattr(n, '_parent').body if isinstance(x, ast.For) and isinstance(x.iter, ast.Name) and x.iter.id == src
+                   and x.lineno < n.lineno and any(isinstance(c, ast.Call) and ast.unparse(c.func) == f'{t}.append' for c in ast.walk(x))]
+            later_reset = [x for x in getattr(n, '_parent').body if isinstance(x, ast.Assign) and ast.unparse(x.targets[0]) == t and
+                           lps and lps[-1].lineno < x.lineno < n.lineno]
+            if lps and not later_reset:
+                out.append(n.targets[0].value.id)
+    return out
+
+
 def r1_acceptance(ctx):
     repo = ctx.repo
     f = repo.func(RQ, 'compute_path_dsjctn')
@@ -113,17 +163,25 @@ def r1_acceptance(ctx):
         tab = ast.unparse(cloop.iter.args[0])               # simple_rqs[elem1]
         firsts = {ast.unparse(c.args[0]) for c in calls}
         other = (firsts - {cnd})
-        if len(other) == 1:
+        R = roles(f)
+        if len(other) == 1 and 'all_fwd' in R:
             d = local_defs(f.node).get(other.pop(), [])
+            fwd_tabs, rev_tabs = short_table_of(f, R, R['all_fwd']), short_table_of(f, R, R['all_rev'])
             if len(d) == 1 and isinstance(d[0][1], ast.Subscript):
                 txt = ast.unparse(d[0][1])
                 base, _, k = tab.partition('[')
-                ok = txt.endswith(f'[{idx}]') and txt.startswith(base + '_reversed[' + k) and cnd in firsts
+                ok = base in fwd_tabs and len(rev_tabs) == 1 and txt == f'{rev_tabs[0]}[{k}[{idx}]' and cnd in firsts
     ctx.check('R1.acceptance', f'{s} reversed twin', ok, key(f, 'reversed-twin'),
               'the reversed candidate tested is not the same-index entry of the reversed-path table of the same request')
     # the reversed table is built from find_reversed_path of each path, in the same order
-    txt = ast.unparse(f.node)
-    ok = 'all_simp_pths_reversed.append(find_reversed_path(pth))' in txt
+    R = roles(f)
+    ok = 'all_rev' in R and len(short_table_of(f, R, R['all_rev'])) == 1 and len(short_table_of(f, R, R['all_fwd'])) >= 1
+    if ok:
+        # nothing reorders one list after the twins were computed
+        lp_rev = [enclosing(n, ast.For) for n, b in __import__('gscan.pattern', fromlist=['find']).find('V_rev.append(find_reversed_path(V_p))', f.node)][0]
+        later = [n for n in lp_rev._parent.body if n.lineno > lp_rev.lineno and isinstance(n, ast.Assign) and
+                 ast.unparse(n.targets[0]) in (R['all_fwd'], R['all_rev'])]
+        ok = not later
     ctx.check('R1.acceptance', f'{s} reversed table', ok, key(f, 'reversed-table'),
               'the reversed table is not find_reversed_path of every enumerated path in the same order')
     ctx.need('R1.acceptance', 10)
@@ -132,8 +190,10 @@ def r1_acceptance(ctx):
 def r2_shrink(ctx):
     repo = ctx.repo
     f = repo.func(RQ, 'compute_path_dsjctn')
+    R = roles(f)
+    CAND = R.get('candidates')
     assigns = [n for n in walk_no_nested(f.node) if isinstance(n, ast.Assign) and isinstance(n.targets[0], ast.Subscript) and
-               isinstance(n.targets[0].value, ast.Name) and n.targets[0].value.id == 'candidates']
+               isinstance(n.targets[0].value, ast.Name) and n.targets[0].value.id == CAND]
     if not assigns:
         raise AnchorMissing('compute_path_dsjctn: candidates[...] assignments')
     assigns.sort(key=lambda n: n.lineno)
@@ -153,7 +213,7 @@ def r2_shrink(ctx):
             good = []
             for c in apps:
                 il = enclosing(c, ast.For)
-                while il is not None and not (f'candidates[{k}]' in ast.unparse(il.iter)):
+                while il is not None and not (f'{CAND}[{k}]' in ast.unparse(il.iter)):
                     il = enclosing(il, ast.For)
                 var = None
                 if il is not None:
@@ -168,30 +228,41 @@ def r2_shrink(ctx):
                   '(a combination that was never checked for disjointness could be selected)', det)
     # whole-dict reassignment only through remove_candidate
     whole = [n for n in walk_no_nested(f.node) if isinstance(n, ast.Assign) and isinstance(n.targets[0], ast.Name) and
-             n.targets[0].id == 'candidates' and n.lineno > first.lineno]
+             n.targets[0].id == CAND and n.lineno > first.lineno]
     for n in whole:
         ok = isinstance(n.value, ast.Call) and getattr(n.value.func, 'id', '') == 'remove_candidate'
         ctx.check('R2.shrink-only', site(f, n), ok, key(f, 'whole-reassign'), 'the candidate table is replaced by something other than remove_candidate(..)')
     rc = repo.func(RQ, 'remove_candidate')
-    txt = ast.unparse(rc.node)
+    from ..pattern import find, mstmt
     muts = [c for c in walk_no_nested(rc.node) if isinstance(c, ast.Call) and isinstance(c.func, ast.Attribute) and
             c.func.attr in ('append', 'extend', 'insert', 'add')]
-    ok = 'temp = candidate.copy()' in txt and 'temp.remove(sol)' in txt and 'candidates[key] = temp' in txt and not muts
+    ok = False
+    for lp in [n for n in rc.node.body if isinstance(n, ast.For)]:
+        b = mstmt(f'for V_k, V_c in {rc.params[0]}.items():\n    S_rest', ast.For(target=lp.target, iter=lp.iter, body=lp.body[:1], orelse=[]))
+        if b is None:
+            continue
+        kk, cc = b['V_k'], b['V_c']
+        cp = [x for n in lp.body for x in [mstmt(f'V_t = {cc}.copy()', n)] if x]
+        if len(cp) == 1:
+            tt = cp[0]['V_t']
+            rm = find(f'{tt}.remove(V_s)', lp)
+            ok = len(rm) == 1 and any(mstmt(f'{rc.params[0]}[{kk}] = {tt}', n) is not None for n in lp.body) and not muts
     ctx.check('R2.shrink-only', site(rc), ok, key(rc, 'only-removes'), 'remove_candidate does more than remove combinations from each candidate set')
     # other mutators on candidates[...] in the main function are removes
     for c in walk_no_nested(f.node):
         if isinstance(c, ast.Call) and isinstance(c.func, ast.Attribute) and isinstance(c.func.value, ast.Subscript) and \
-                ast.unparse(c.func.value.value) == 'candidates':
+                ast.unparse(c.func.value.value) == CAND:
             ctx.check('R2.shrink-only', site(f, c), c.func.attr in ('remove', 'copy', 'index'), key(f, f'mutator|{c.func.attr}'),
                       f'candidates[..].{c.func.attr}(..) can add to a candidate set after the combination step')
     # selection
-    sel = [n for n in walk_no_nested(f.node) if isinstance(n, ast.For) and ast.unparse(n.iter).startswith('candidates[') and
+    sel = [n for n in walk_no_nested(f.node) if isinstance(n, ast.For) and ast.unparse(n.iter).startswith(f'{CAND}[') and
            ast.unparse(n.iter).endswith('][0]')]
     ctx.check('R2.shrink-only', f'{site(f)} selection', len(sel) == 1, key(f, 'select-first'),
               'the returned combination is not element 0 of the (checked) candidate set of the group')
     if sel:
-        st = [n for n in ast.walk(sel[0]) if isinstance(n, ast.Assign) and ast.unparse(n.targets[0]).startswith('pathreslist_disjoint[')]
-        ok = len(st) == 1 and ast.unparse(st[0].value) == 'allpaths[id(pth)].pth' and 'allpaths[id(pth)].req' in ast.unparse(st[0].targets[0])
+        pv = sel[0].target.id if isinstance(sel[0].target, ast.Name) else None
+        st = find(f"V_res[{R.get('allpaths')}[id({pv})].req] = {R.get('allpaths')}[id({pv})].pth", sel[0])
+        ok = len(st) == 1 and 'allpaths' in R
         ctx.check('R2.shrink-only', f'{site(f, sel[0])} result mapping', ok, key(f, 'result-mapping'),
                   'the path recorded for a request is not the full path of the selected short list of that same request')
     ctx.need('R2.shrink-only', 8)
@@ -201,7 +272,9 @@ def r3_raise(ctx):
     repo = ctx.repo
     f = repo.func(RQ, 'compute_path_dsjctn')
     g = CFG(f.node)
-    sel = [n for n in walk_no_nested(f.node) if isinstance(n, ast.If) and ast.unparse(n.test).startswith('candidates[')]
+    R = roles(f)
+    CAND = R.get('candidates')
+    sel = [n for n in walk_no_nested(f.node) if isinstance(n, ast.If) and ast.unparse(n.test).startswith(f'{CAND}[')]
     ok = False
     for n in sel:
         if n.orelse and any(isinstance(x, ast.Raise) and 'DisjunctionError' in ast.unparse(x) for x in n.orelse) and \
@@ -210,8 +283,8 @@ def r3_raise(ctx):
     ctx.check('R3.must-raise', site(f), ok, key(f, 'empty-raises'),
               'an empty candidate set for a group does not raise DisjunctionError: overlapping or missing paths would be returned instead')
     # step 5 loops over all groups
-    lp = [n for n in walk_no_nested(f.node) if isinstance(n, ast.For) and ast.unparse(n.iter) == 'disjunctions_list' and
-          any(isinstance(x, ast.If) and ast.unparse(x.test).startswith('candidates[') for x in n.body)]
+    lp = [n for n in walk_no_nested(f.node) if isinstance(n, ast.For) and ast.unparse(n.iter) == R['groups'] and
+          any(isinstance(x, ast.If) and ast.unparse(x.test).startswith(f'{CAND}[') for x in n.body)]
     ctx.check('R3.must-raise', f'{site(f)} every group', len(lp) == 1 and not any(isinstance(x, (ast.Break, ast.Continue)) for x in ast.walk(lp[0])),
               key(f, 'every-group'), 'the selection step does not visit every synchronisation group')
     ctx.need('R3.must-raise', 2)
@@ -226,7 +299,13 @@ def r4_cutoff(ctx):
               'candidate paths are not enumerated up to the documented cut-off of 80 elements')
     if cs:
         src, tgt = kwarg(cs[0], 'source', 1), kwarg(cs[0], 'target', 2)
-        ok = src is not None and 'pathreq.source' in ast.unparse(src) and tgt is not None and 'pathreq.destination' in ast.unparse(tgt)
+        lp = enclosing(cs[0], ast.For)
+        rq = lp.target.id if lp is not None and isinstance(lp.target, ast.Name) else None
+        from ..pattern import mexpr
+        NETW = f.params[0]
+        ok = src is not None and tgt is not None and rq is not None and any(
+            mexpr(pat.format(n=NETW, r=rq, a='source'), src) is not None and mexpr(pat.format(n=NETW, r=rq, a='destination'), tgt) is not None
+            for pat in ('next((V_e for V_e in {n}.nodes() if V_e.uid == {r}.{a}))', 'next((V_e for V_e in {n} if V_e.uid == {r}.{a}))'))
         ctx.check('R4.cutoff', f'{site(f, cs[0])} endpoints', ok, key(f, 'endpoints'), 'candidates are not enumerated between the request endpoints')
     ctx.need('R4.cutoff', 2)
 
@@ -253,9 +332,12 @@ def r5_helper(ctx):
     ctx.check('R5.helper', site(f), ok and ok2, key(f, 'isdisjoint'),
               'isdisjoint does not return non-zero exactly when a consecutive pair of one list is a consecutive pair of the other')
     g = repo.func(RQ, 'compute_path_dsjctn')
-    comps = [n for n in walk_no_nested(g.node) if isinstance(n, ast.ListComp) and 'isinstance(e, Roadm)' in ast.unparse(n)]
-    ok = len(comps) == 2 and all('enumerate(pth[1:-1])' in ast.unparse(c) and 'isinstance(pth[i], Roadm)' in ast.unparse(c) and
-                                 ast.unparse(c.elt) == 'e.uid' for c in comps)
+    from ..pattern import find
+    comps = find('[V_e.uid for V_i, V_e in enumerate(V_p[1:-1]) if isinstance(V_e, Roadm) | isinstance(V_p[V_i], Roadm)]', g.node) + \
+        find('[V_e.uid for V_i, V_e in enumerate(V_p[1:-1]) if isinstance(V_e, Roadm) or isinstance(V_p[V_i], Roadm)]', g.node)
+    allc = [n for n in walk_no_nested(g.node) if isinstance(n, ast.ListComp) and 'Roadm' in ast.unparse(n)]
+    ok = len(comps) == 2 and len(allc) == 2 and all(isinstance(enclosing(n, ast.For), ast.For) and
+                                                     enclosing(n, ast.For).target.id == b['V_p'] for n, b in comps)
     ctx.check('R5.helper', f'{site(g)} short lists', ok, key(g, 'short-lists'),
               'the per-path short lists (direct and reversed) are not built the same way: every ROADM and the element following a ROADM')
     ctx.need('R5.helper', 2)
@@ -278,7 +360,11 @@ def r6_groups(ctx):
               'a synchronisation group is dropped although no other group has exactly the same set of requests (e.g. a group nested in '
               'a larger one): its requests would be routed without the constraint', det)
     rem = [c for c in walk_no_nested(f.node) if isinstance(c, ast.Call) and isinstance(c.func, ast.Attribute) and c.func.attr == 'remove']
-    ctx.check('R6.groups', f'{site(f)} works on a copy', 'local_disjn = disjn.copy()' in ast.unparse(f.node) and len(rem) == 1,
+    from ..pattern import mstmt
+    cps = [b['V_l'] for n in f.node.body for b in [mstmt(f'V_l = {f.params[0]}.copy()', n) or mstmt(f'V_l = list({f.params[0]})', n)] if b]
+    rets = [n for n in walk_no_nested(f.node) if isinstance(n, ast.Return)]
+    okc = len(cps) == 1 and len(rem) == 1 and ast.unparse(rem[0].func.value) == cps[0] and len(rets) == 1 and ast.unparse(rets[0].value) == cps[0]
+    ctx.check('R6.groups', f'{site(f)} works on a copy', okc,
               key(f, 'copy'), 'de-duplication edits the caller\'s list or removes more than the duplicate')
     ctx.need('R6.groups', 2)
 
